@@ -110,6 +110,18 @@ def Cls.trait (c : Cls) (n : Name) : TraitDef := (c.traits.lookup n).getD .pytho
 def Cls.deferNames (c : Cls) : List (Name × DelegInfo) :=
   c.traits.filterMap fun (n, td) => match td with | .defer d => some (n, d) | _ => none
 
+/-- `class Sub(Base)`: the type attribute `__prefix__` is found through the MRO — both
+`delegate_attr_name_class_name` (`PyObject_GetAttr` on the type, ctraits.c:4630-4650) and
+`_trait_delegate_name` (`getattr(self.__class__, "__prefix__", "")`, has_traits.py:3440-3447) see an
+inherited prefix unless the subclass restates it; class traits and `__listener_traits__` of the base are
+inherited unless the subclass body redefines the name (has_traits.py:548-600). -/
+def Cls.subclass (base : Cls) (ownPfx : Option Name) (own : List (Name × TraitDef)) : Cls :=
+  { pfx := match ownPfx with
+      | some q => some q
+      | none => base.pfx,
+    traits := base.traits.map (fun nt => (nt.1, (own.lookup nt.1).getD nt.2)) ++
+      own.filter (fun nt => (base.traits.lookup nt.1).isNone) }
+
 structure Obj where
   cls : Cls
   dict : Name → Option Val                 -- attribute values in `__dict__`
